@@ -103,13 +103,28 @@ def enclosing_conditions(root, target):
     return path if rec(root) else None
 
 
-def _is_epoch_gt_threshold(c, cn, epoch_h, th_h):
-    """canonical integer comparison: the condition is equivalent to epoch > threshold"""
+def _is_epoch_gt_threshold(c, cn, epoch_h, th_h, start=1):
+    """canonical integer comparison: the condition is equivalent to (number of epochs run so far) > threshold, where the number of
+    epochs run is the loop variable when the loop counts from 1 and variable + 1 - start in general"""
     N = e1.Norm(c, {epoch_h: Rat.atom("epoch"), th_h: Rat.atom("threshold")})
     try:
-        return str(N.norm(cn)) == e1.cmp_atom("Gt", Rat.atom("epoch"), Rat.atom("threshold"), integer=True)
+        return str(N.norm(cn)) == e1.cmp_atom("Gt", Rat.atom("epoch") + (1 - start), Rat.atom("threshold"), integer=True)
     except ValueError:
         return False
+
+
+def _epoch_start(c, L):
+    it_ = strip(L.epoch["iter"])
+    try:
+        if it_.get("k") == "struct" and it_["path"] == "std::ops::Range":
+            v = str(e1.Norm(c).norm(dict((a_, b_) for a_, b_ in it_["fs"])["start"]))
+        elif it_.get("k") == "call" and "RangeInclusive" in str(it_.get("callee")) and it_.get("args"):
+            v = str(e1.Norm(c).norm(it_["args"][0]))
+        else:
+            return None
+        return int(v)
+    except (ValueError, KeyError):
+        return None
 
 
 def r2_r3(ctx, L, hs):
@@ -172,6 +187,9 @@ def r2_r3(ctx, L, hs):
     pcs = e4.path_conditions(c, L.epoch["body"], ex) or []
     descr = []
     have = {"some-threshold": False, "epoch-gt-threshold": False, "increasing": False}
+    ep_start = _epoch_start(c, L)
+    if ep_start is None:
+        ep_start = 10 ** 6      # unknown numbering: no comparison with the loop variable can be shown to count epochs
     th_inner = None
     inc_h = None
     inc_item = None
@@ -184,7 +202,7 @@ def r2_r3(ctx, L, hs):
             have["some-threshold"] = True
             th_inner = pat_binds(cn["pat"])[0][1]
             matched += 1
-        elif eff is not None and eff.get("k") == "bin" and eff["op"] in ("Gt", "Ge", "Lt", "Le") and th_inner is not None and _is_epoch_gt_threshold(c, eff, L.epoch_var, th_inner):
+        elif eff is not None and eff.get("k") == "bin" and eff["op"] in ("Gt", "Ge", "Lt", "Le") and th_inner is not None and _is_epoch_gt_threshold(c, eff, L.epoch_var, th_inner, ep_start):
             have["epoch-gt-threshold"] = True
             matched += 1
         elif eff is not None and eff.get("k") == "local" and c.ty(eff) == "bool" and n_item == len(pcs) - 1:
